@@ -43,14 +43,11 @@ WORK = os.path.join(K.WORK, PID)
 
 CLASSES = {
     # class -> short mechanism text (the long text lives in known_findings.json)
-    "failed_record_bytes_flushed_later": "bytes of a record whose write failed stay in the BufWriter and reach the segment with the next successful flush",
     "wal_synced_failed_commit_replayed": "the record is in the segment when the fsync of a sync commit fails; the commit fails, recovery replays it",
     "wal_durable_apply_failed_replayed": "the record is logged, memtable apply fails; recovery replays the failed commit",
     "failed_partial_apply_visible": "apply fails after inserting a prefix of the batch; publish() advances the horizon over it",
-    "acks_after_failed_wal_write_lost": "a failed append leaves a stale header / dangling fragment between valid records: everything after it is unreadable",
     "vlog_write_error_swallowed": "a value-log write error is swallowed (BufWriter drop at file rotation / deferred flush): the flush succeeds, value pointers reference bytes that were never written",
     "vlog_rotation_without_fsync": "a value-log file that fills up is replaced without fsync (fault-free defect of C02/C03; a failed flush whose retry re-appends the values makes it reachable in workloads whose fault-free run never rotates)",
-    "reopen_fails_after_failed_wal_write": "the stale header / dangling fragment a failed append leaves in a segment that is later rotated away makes recovery fail (still corrupted after repair): the store cannot be opened",
     "torn_vlog_file_blocks_reopen": "a failed flush leaves a value-log file with a torn header / entry; the next open refuses the directory",
 }
 
@@ -506,6 +503,18 @@ def evaluate(wl, out, log, status, fault):
             else:
                 cls = vlog_class(got, fault, [want])
                 F.append((cls, "LIVE: after line %d (%s) a fresh reader sees %s, the acknowledged commits give %s" % (line, script[line][3:], got[:200], want[:200])))
+    # (c') since the repair of C15-N1/N2/N10 a WAL failure is sticky (Wal.failed): after a commit or a physical command that
+    # failed with a WAL error NO later commit may be acknowledged (theorem C15_no_ack_after_failure)
+    wal_failed = None
+    for kind, line, obj in wl.steps:
+        a = ans(line) or ""
+        if wal_failed is not None and kind == "commit" and a == "ok":
+            F.append((None, "commit at line %d is acknowledged after `%s` (line %d) failed with a WAL error (%s): the Wal must refuse every write after a failure" % (
+                line, script[wal_failed][3:], wal_failed, (ans(wal_failed) or "")[:80])))
+            break
+        if wal_failed is None and a.startswith("err") and "WAL" in a:
+            wal_failed = line
+    info["wal_failed"] = wal_failed is not None
     # (c) a failure that no fresh fault explains must be sticky: every later commit fails as well
     for line, has_fault, a in fail_lines:
         if has_fault:
@@ -765,6 +774,7 @@ def sweep(wl, name, substr, tier, rng, budget, stats, res, kf, examples):
         stats["fired"] += 1 if info["fault_fired"] else 0
         stats["open_failed_runs"] += 1 if info.get("open_failed") else 0
         stats["sticky_runs"] += 1 if info["sticky"] else 0
+        stats["wal_failed_runs"] = stats.get("wal_failed_runs", 0) + (1 if info.get("wal_failed") else 0)
         stats["commits"]["ok"] += info["acked"]
         stats["commits"]["failed"] += info["failed"]
         stats["commits"]["conflict"] += info["conflicts"]
@@ -918,6 +928,11 @@ def gen_wf_script(rng, B, shape):
             r = rng.random()
             cmds.append(app(small()) if r < 0.7 else rng.choice(["flush", "sync", "sync", "rotate", app(0)]))
         cmds.append(app(small()))
+        if rng.random() < 0.5:
+            # close somewhere (commands after it: append is refused, flush/sync do nothing, rotate is not guarded), or at the end
+            cmds.insert(rng.randint(1, len(cmds)), "close")
+            if rng.random() < 0.5:
+                cmds += [rng.choice(["sync", "flush", "close", "rotate"]), app(small())]
     elif shape == "edge":
         # a record that fills the buffer exactly / by one byte more or less, with something small around it
         pre = rng.choice([0, 1, 3])
@@ -936,10 +951,12 @@ def gen_wf_script(rng, B, shape):
         if rng.random() < 0.5:
             cmds.append("rotate")
             cmds.append(app(small()))
+        cmds.append(rng.choice(["close", "sync", "flush"]))
     elif shape == "pile":
         # many mid-size records under a sticky fault pile up in the buffer until it overflows
         for _ in range(rng.randint(5, 8)):
             cmds.append(app(rng.choice([6000, 9000, 12000])))
+        cmds.append("close")
     return cmds
 
 
@@ -1013,16 +1030,23 @@ def wf_judge(cmds, lines, impl, model):
             if "=" in kv:
                 k, v = kv.split("=", 1)
                 cl[k] = v
-    # acknowledged appends missing?
+    # since the repair of C15-N1/N2/N10 there is no known class at this level: theorem C15_crash_delivers_exactly_acked
     it = iter(delivered)
     all_acked_there = all(any(x == y for y in it) for x in acked)
-    extra = len(delivered) - len(acked) if all_acked_there else None
-    text = "delivered after the crash [%s] ; acknowledged appends [%s] ; model classes %s" % (",".join(delivered)[:300], ",".join(acked)[:300], cl)
-    if not all_acked_there:
-        return "acked-lost", ("acks_after_failed_wal_write_lost" if cl.get("mid") == "true" else None), text, dis
-    if cl.get("used_after") == "true" or cl.get("fsync") == "true":
-        return "revived", ("wal_synced_failed_commit_replayed" if cl.get("fsync") == "true" and cl.get("used_after") != "true" else "failed_record_bytes_flushed_later"), text, dis
-    return "revived", None, text, dis
+    text = "delivered after the crash [%s] ; acknowledged appends [%s] ; model says %s" % (",".join(delivered)[:300], ",".join(acked)[:300], cl)
+    return ("revived" if all_acked_there else "acked-lost"), None, text, dis
+
+
+def wf_sticky(cmds, impl):
+    """after a command that returned an error no append may be acknowledged (the Wal has failed or is closed)"""
+    seen = None
+    for i, c in enumerate(cmds):
+        a = impl[2 + i] if 2 + i < len(impl) else None
+        if seen is not None and c.startswith("append ") and a == "ok":
+            return "append `%s` (command %d) is acknowledged after `%s` (command %d) returned an error" % (c[:40], i, cmds[seen][:40], seen)
+        if a == "err" and seen is None:
+            seen = i
+    return None
 
 
 def explore_writer(ctx, res, kf):
@@ -1087,6 +1111,9 @@ def explore_writer(ctx, res, kf):
             res["disagreements"].append("fault %s on `%s`: %s" % (spec_of(plan, "wal/"), " ; ".join(cmds)[:160], dis))
             if len(res["disagreements"]) <= 3:
                 C.write_replay(PID, "wf_disagreement_%d.txt" % len(res["disagreements"]), rp)
+        stk = wf_sticky(cmds, impl)
+        if stk:
+            res["violations"].append(("writer level (fault %s): %s" % (spec_of(plan, "wal/"), stk), rp))
         if v == "ok":
             continue
         if cls is not None and cls in kf:
@@ -1104,17 +1131,24 @@ def confirm_witnesses(ctx, res, kf):
     out = {}
     base = os.path.join(WORK, "wit")
     sides = ("impl", "model") if ctx["have_model"] else ("impl",)
-    for name, cmds, want in (("w1_failed_record_delivered", ["append 01", "append 02", "append 03"], "revived"),
-                             ("w2_later_ack_lost", ["append 01", "append rep:40000:7", "append 03"], "acked-lost")):
-        lines, impl, model, ops = wf_run(cmds, (2, "eio", False), os.path.join(base, name), sides)
+    # regressions of the former findings C15-N1 / C15-N2 (the witnesses of the old-writer refutations in Crash/FailInst_proofs.v)
+    # on the repaired writer, with a close at the end: the failed append makes the Wal fail, every later append is refused, close
+    # writes nothing: a crash (and the closed file) delivers exactly the first record.  w3: the one shape that remains at the level
+    # of a sync COMMIT (append + sync): the fsync fails when the record is in the file (C15-N3, store level).
+    for name, cmds, plan, want_ans in (
+            ("w1_regression", ["append 01", "append 02", "append 03", "close"], (2, "eio", False), ["ok", "err", "err", "ok"]),
+            ("w2_regression", ["append 01", "append rep:40000:7", "append 03", "sync", "close"], (2, "eio", False), ["ok", "err", "err", "err", "ok"]),
+            ("w3_fsync_failed_sync_commit", ["append 01", "sync", "append 02"], (1, "fsync", False), ["ok", "err", "err"])):
+        lines, impl, model, ops = wf_run(cmds, plan, os.path.join(base, name), sides)
         v, cls, text, dis = wf_judge(cmds, lines, impl, model)
-        out[name] = "%s (%s)" % (v, cls)
+        out[name] = "%s answers=%s" % (v, impl[2:2 + len(cmds)])
         if dis:
             res["disagreements"].append("witness %s: %s" % (name, dis))
-        if v != want:
-            res["disagreements"].append("witness %s of Props/C15.v is not reproduced by the implementation: verdict %s, expected %s (%s)" % (name, v, want, text[:200]))
-        elif cls in kf:
-            res["known"].append("class=%s (%s)" % (cls, kf[cls]))
+        rp = "# property=C15\n# writer level regression %s under VERIF_SHIM_FAIL=%s\n" % (name, spec_of(plan, "wal/")) + \
+             "".join("> %s\n#   impl: %s\n" % (l, impl[i_] if i_ < len(impl) else "<none>") for i_, l in enumerate(lines))
+        if v != "ok" or impl[2:2 + len(cmds)] != want_ans:
+            res["violations"].append(("writer level regression %s: verdict %s, answers %s (expected ok, %s): %s" % (
+                name, v, impl[2:2 + len(cmds)], want_ans, text[:300]), rp))
     # regression of the former finding C15-N9 (Conc/PipeFail_proofs.v wq_trace): one commit held inside apply, n failing commits
     # (BatchTooLarge) and one more commit, each on its own task.  The model (theorem C15_pipeline_not_poisoned, example
     # C15_former_overflow_trace) says: no panic for any n; a failing commit cannot return while an older batch is unapplied
